@@ -1159,3 +1159,23 @@ V('c12-seed-reset-after-build', 'C12', 'C12.R7', (HW, '''    id_builder.reset();
 
     let entry = if path.is_dir() {'''))
 V('c12-benign-root-literal', 'C12', 'silent', (HW, '''        return Some(OwnedDirEntry::Directory(id_builder.join()));''', '''        return Some(OwnedDirEntry::Directory("".into()));'''))
+V('c15-thread-keeps-a-sender', 'C15', 'C15.R4', (H, '''        let answers_clone = answers.clone();
+
+        thread::Builder::new()
+            .name("assets_hot_reload".to_string())
+            .spawn(|| hot_reloading_thread(source, events, cache_msg_rx, answers_clone))
+            .unwrap();''', '''        let answers_clone = answers.clone();
+        let keep_alive = cache_msg_tx.clone();
+
+        thread::Builder::new()
+            .name("assets_hot_reload".to_string())
+            .spawn(move || {
+                let _keep_alive = keep_alive;
+                hot_reloading_thread(source, events, cache_msg_rx, answers_clone)
+            })
+            .unwrap();'''))
+V('c03-default-value-swallows-error', 'C03', 'C03.R6', (AS, '''    fn default_value(id: &SharedString, error: BoxedError) -> Result<Self, BoxedError> {
+        Err(error)
+    }''', '''    fn default_value(id: &SharedString, error: BoxedError) -> Result<Self, BoxedError> {
+        Err(format!("could not load {id}: {error}").into())
+    }'''))
